@@ -792,6 +792,32 @@ func (fx *fnExec) fieldProtoCheck(st *state, addrV ssa.Value, in ssa.Instruction
 		return
 	}
 	fname := structOf(stT).Field(fa.Field).Name()
+	// default rule: a type that declares a protocol for some of its fields is shared; a store to one of
+	// its UNDECLARED fields outside initialisation needs the object's lock (loads are free: such fields
+	// are immutable after construction). One clause per type: proto:store(T.*):default.
+	if isStore && fx.ct != nil && fx.ct.Role != "init" {
+		declared, typed := false, false
+		var dprops []string
+		for _, fp := range fx.g.cs.FieldProto {
+			if fp.Type == n.Obj().Name() && fp.Pkg == n.Obj().Pkg().Path() {
+				typed = true
+				dprops = fp.Props
+				if fp.Field == fname {
+					declared = true
+				}
+			}
+		}
+		if typed && !declared && structOf(stT).Field(fa.Field).Type().String() != "sync.Mutex" {
+			o := fx.operand(st, fa.X)
+			if o.addr == nil && !strings.HasPrefix(o.term, "new!") {
+				if len(dprops) == 0 {
+					dprops = []string{"C16"}
+				}
+				held := "(select " + fx.ghostGet(st, "held") + " " + o.term + ")"
+				fx.addObl("proto", "store("+n.Obj().Name()+".*):default", dprops, held, in.Pos(), fmt.Sprintf("store of %s.%s: the field has no fieldproto declaration; outside initialisation it may only be written under the object's lock", n.Obj().Name(), fname))
+			}
+		}
+	}
 	for _, fp := range fx.g.cs.FieldProto {
 		if fp.Type != n.Obj().Name() || fp.Field != fname || fp.Pkg != n.Obj().Pkg().Path() {
 			continue
